@@ -652,13 +652,16 @@ func (module *InMemoryStorage) deleteTopic(request *protocol.StorageRequest, req
 		return
 	}
 
-	// Work backwards - remove the topic from consumer groups first
+	// Work backwards - remove the topic from consumer groups first. The read lock keeps the consumer list from being
+	// modified while we iterate over it (group locks are always taken after the consumer list lock, never before)
+	clusterMap.consumerLock.RLock()
 	for _, consumerMap := range clusterMap.consumer {
 		consumerMap.lock.Lock()
 		// No need to check for existence
 		delete(consumerMap.topics, request.Topic)
 		consumerMap.lock.Unlock()
 	}
+	clusterMap.consumerLock.RUnlock()
 
 	// Now remove the topic from the broker list
 	clusterMap.brokerLock.Lock()
